@@ -157,6 +157,19 @@ def flat_points(region):
     return out
 
 
+def model_final(original, applied, rational):
+    """exact image of the original region under the applied steps (the same model as the
+    per-step comparison, composed)"""
+    region = original
+    exact = rational
+    for step in applied:
+        step_exact = exact and step["exact"]
+        region = map_region(region, lambda p, st=step, se=step_exact: apply_model_point(p, st, se))
+        if not step_exact:
+            exact = False
+    return region
+
+
 def inverse_step(step):
     if step["op"] == "move":
         dx, dy = parse(step["dx"]), parse(step["dy"])
@@ -258,6 +271,22 @@ def case(ctx):
         npts = len(flat_points(final))
         if abs(area1 - want) > 1e-9 * abs(want) * (1 + len(steps)) + 1e-13 * bigc * bigc * npts:
             case.violate("area after the history is %r, expected |det T| * area = %r" % (area1, want))
+    # ---- first and second moments transform accordingly ---------------------------------------
+    # (compared with the exact moments of the model's image; only where the library's quadrature is
+    # exact: straight and quadratic boundaries, order <= 2)
+    maxdeg = max(len(seg) - 1 for c in O.region_curves(final) for seg in c)
+    if maxdeg <= 2 and not case.violations:
+        import shapepy as _sp
+
+        for (a_, b_) in ((1, 0), (0, 1), (1, 1)):
+            got, exc = call(_sp.IntegrateShape.polynomial, shape, a_, b_)
+            want = O.region_moment(model_final(original, applied, rational), a_, b_)
+            scale = sum(abs(float(O.seg_moment_dy(seg, a_ + 1, b_))) for c in O.region_curves(final) for seg in c) / (a_ + 1)
+            case.count("transform:moments-judged")
+            if exc is not None:
+                case.violate("moment (%d,%d) after the history raised %s" % (a_, b_, exc_text(exc)))
+            elif abs(float(got) - float(want)) > 1e-9 * max(scale, 1e-300) * (1 + len(steps)):
+                case.violate("moment (%d,%d) after the history is %r, the affine image has %r" % (a_, b_, float(got), float(want)))
     # ---- membership: T(p) in T(S) iff p in S ---------------------------------------------
     curves0 = O.region_curves(original)
     box0 = O.curves_bbox(curves0)
